@@ -7,7 +7,7 @@
 set -u
 SRC="${1:-/verif/seeded}"
 GLOB="${2:-*}"
-ST=/tmp/dtr-selftest
+ST=/tmp/dtr-selftest-$$
 rm -rf "$ST"; mkdir -p "$ST/out"
 git -C /repo worktree prune
 git -C /repo worktree add -q --detach "$ST/repo" HEAD || exit 2
@@ -15,8 +15,8 @@ cp -r /verif/harness "$ST/harness"
 sed -i "s#path = \"/repo\"#path = \"$ST/repo\"#" "$ST/harness/Cargo.toml"
 sed -i "s#target-dir = \"/verif/target\"#target-dir = \"$ST/target\"#" "$ST/harness/.cargo/config.toml"
 export CARGO_NET_OFFLINE=true CARGO_TARGET_DIR="$ST/target" VERIF_OUT_ROOT="$ST/out"
-OUT=/verif/selftest/RESULTS.tsv
-[ "$GLOB" = "*" ] && printf 'mutant\tcheck\texit\tclasses\n' > "$OUT"
+OUT="${OUT:-/verif/selftest/RESULTS.tsv}"
+printf 'mutant\tcheck\texit\tclasses\n' > "$OUT"
 for m in "$SRC"/$GLOB/; do
   name=$(basename "$m"); id=${name%%-*}
   [ -f "$m/patch.diff" ] || continue
